@@ -357,6 +357,9 @@ pub fn exec_writer(t: &[&str]) -> String {
                         match c.as_bytes()[0] {
                             b'p' => { w.push(parse_u64(&c[1..])); None },
                             b'e' => { let vals: Vec<u64> = c[1..].split(',').filter(|x| !x.is_empty()).map(|x| parse_u64(x)).collect(); w.extend(vals); None },
+                            b'x' => { let vals: Vec<u8> = c[1..].split(',').filter(|x| !x.is_empty()).map(|x| parse_u64(x) as u8).collect(); w.extend(vals); None },
+                            b'y' => { let vals: Vec<u16> = c[1..].split(',').filter(|x| !x.is_empty()).map(|x| parse_u64(x) as u16).collect(); w.extend(vals); None },
+                            b'z' => { let vals: Vec<u32> = c[1..].split(',').filter(|x| !x.is_empty()).map(|x| parse_u64(x) as u32).collect(); w.extend(vals); None },
                             b'c' => Some(match w.close() { Ok(()) => "c:ok".to_string(), Err(_) => "c:err".to_string() }),
                             b'l' => Some(format!("l{}", w.len())),
                             b'o' => Some(format!("o{}", w.is_open() as u8)),
@@ -416,6 +419,16 @@ pub fn exec_map(_st: &mut State, t: &[&str]) -> String {
                 // element-wise access through the view (get / bit) compared with loading
                 "intget" => match IntVectorMapper::new(&map, offset) {
                     Ok(v) => { let xs: Vec<u64> = v.iter().collect(); format!("{} | {}", hdr(&v), words_to_string(&xs)) },
+                    Err(e) => io_err(&e) },
+                // get_or through the view at in-range, boundary and huge indices (default 3735928559)
+                "intgetor" => match IntVectorMapper::new(&map, offset) {
+                    Ok(v) => {
+                        let n = v.len();
+                        let w = std::cmp::max(1, v.width());
+                        let idx: Vec<usize> = vec![0, n / 2, n.saturating_sub(1), n, n + 1, usize::MAX / w, usize::MAX / w + 1, 1usize << 63, (1usize << 63) + 1, usize::MAX - 1, usize::MAX];
+                        let xs: Vec<u64> = idx.iter().map(|i| v.get_or(*i, 3735928559)).collect();
+                        format!("{} | {}", hdr(&v), words_to_string(&xs))
+                    },
                     Err(e) => io_err(&e) },
                 // integers of several widths at every bit alignment, read through the mapped view
                 "rawints" => match RawVectorMapper::new(&map, offset) {
